@@ -467,7 +467,7 @@ def make_geneos(gen, check, name, smoke):
                 t0 = time.time()
                 limit = max(budget, 30.0) if deep else 0.0
                 fixed = random.Random(20260926)          # the smoke set does not depend on VERIF_SEED
-                todo = [gen(fixed, e, w) for e, w in smoke]
+                todo = [sm if isinstance(sm, dict) else gen(fixed, *sm) for sm in smoke]
                 k = 0
                 while True:
                     if k < len(todo):
@@ -498,6 +498,12 @@ def make_geneos(gen, check, name, smoke):
 
 def gen_oracle_case(rng, eos, want):
     return gen_case(rng, eos, want, sizes=((601,), (601,)))
+
+
+# equal thermodynamic states on both sides, streams receding, ul + ur != 0 (an Einfeldt problem seen from a moving frame):
+# a shortcut that mirrors the left tables for the right side is exact only for ul = -ur (seeded C09-8)
+EQUAL_STATES_RCR = dict(gl=1.4, gr=1.4, pl=0.4, rl=1.0, rr=1.0, pr=0.4, ul=-1.5, ur=2.5, xmin=-1.0, xd0=0.0, xmax=1.0, t=0.15,
+                        num_int_pts=601, num_x_pts=601, tag='ig:RCR:equal-states')
 
 
 def _waves(c):
@@ -572,7 +578,7 @@ def _ivg_check(c):
     return None
 
 
-ig_vs_gen = make_geneos(gen_oracle_case, _ivg_check, 'geneos.ig_vs_gen', [('ig', 'RCS'), ('ig', 'SCR')])
+ig_vs_gen = make_geneos(gen_oracle_case, _ivg_check, 'geneos.ig_vs_gen', [('ig', 'RCS'), ('ig', 'SCR'), EQUAL_STATES_RCR])
 
 
 # ---- C02: Rankine-Hugoniot / contact from the returned fields -------------------------------------
@@ -752,8 +758,8 @@ def _boost_check(c):
     return _compare_sym('boost', fa, fb, 1.0, v, '%s:%s:boost' % (name, pat), tol)
 
 
-mirror = make_geneos(gen_oracle_case, _mirror_check, 'geneos.mirror', [('ig', 'RCS'), ('jwl', 'SCS')])
-boost = make_geneos(gen_oracle_case, _boost_check, 'geneos.boost', [('jwl', 'RCS'), ('ig', 'RCR')])
+mirror = make_geneos(gen_oracle_case, _mirror_check, 'geneos.mirror', [('ig', 'RCS'), ('jwl', 'SCS'), EQUAL_STATES_RCR])
+boost = make_geneos(gen_oracle_case, _boost_check, 'geneos.boost', [('jwl', 'RCS'), ('ig', 'RCR'), EQUAL_STATES_RCR])
 
 
 def calibrate(rng, n=40):
